@@ -141,16 +141,23 @@ Proof. intros H. exact H. Qed.
 Lemma rs_logout m s : RS m s -> RS m (initiate_logout_in_reply_to s None).
 Proof. intros H. unfold initiate_logout_in_reply_to, send_logout_in_reply_to. apply rs_send; [exact H | reflexivity | reflexivity]. Qed.
 
+Lemma srr_is_send : forall s b e s1 st, send_resend_request s b e = (s1, st) ->
+  exists body, s1 = send s T_RESENDREQ body /\ exists c, st = SResend None c e.
+Proof.
+  intros s b e s1 st H. unfold send_resend_request in H. cbv zeta in H.
+  match type of H with context [if ?x <? e then _ else _] => destruct (x <? e) end;
+    inversion H; subst; eexists; split; try reflexivity; eexists; reflexivity.
+Qed.
+
 Lemma rs_process_reject : forall m s r s1 next,
   process_reject s m r = (s1, next) -> RS m s -> okwire m (s_wire s1) /\ is_connected next = true.
 Proof.
   intros m s r s1 next E H. destruct r as [recv exp|recv exp| | |reason tag bus]; cbn [process_reject] in E.
   - (* too high *)
-    assert (Hx : forall x nx, (x = s \/ x = send s T_RESENDREQ (snd (x, nx) |> fun _ => []) ) -> True) by auto. clear Hx.
     destruct (unwrap_pending (s_st s)) eqn:Eu;
-      try (unfold do_target_too_high, send_resend_request in E; cbv zeta in E;
-           match type of E with context [if ?c then _ else _] => destruct c end;
-           inversion E; subst; split; [apply rs_send; [exact H | reflexivity | reflexivity] | reflexivity]).
+      try (destruct (do_target_too_high s recv exp) as [x st0] eqn:Ed; unfold do_target_too_high in Ed;
+           destruct (srr_is_send _ _ _ _ _ Ed) as (body & -> & c0 & ->); inversion E; subst;
+           split; [apply rs_send; [exact H | reflexivity | reflexivity] | reflexivity]).
     inversion E; subst. split; [exact (proj2 H) | reflexivity].
   - unfold do_target_too_low in E.
     repeat match type of E with context [match ?x with _ => _ end] => destruct x
